@@ -221,7 +221,7 @@ fn edits(base: &str, out: &mut Vec<String>) {
 
 pub fn run(tier: Tier, seed: u64) -> i32 {
     let run = Run::new(ID, "exploration", tier, seed);
-    run.assume("inputs: all strings of <=3 (quick) / <=4 (thorough) tokens over a 48-token alphabet, the complete single-edit (thorough: double-edit on the shortest) neighbourhood of a 62-filter corpus, and the listed size stressors; per-input time cap 10 s");
+    run.assume("inputs: all strings of <=4 (quick) / <=5 (thorough) tokens over a 48-token alphabet, the complete single-edit (thorough: double-edit on the shortest) neighbourhood of a 62-filter corpus, and the listed size stressors; per-input time cap 10 s");
     let (_, uni) = unis::containers(true);
     let scheme = uni.build();
     let stats = Stats::default();
@@ -256,7 +256,7 @@ pub fn run(tier: Tier, seed: u64) -> i32 {
         });
 
         // ---- (1) token strings ---------------------------------------------------------
-        let max_tokens = tier.pick(3usize, 4usize);
+        let max_tokens = tier.pick(4usize, 5usize);
         let nt = TOKENS.len();
         for len in 0..=max_tokens {
             let jobs = nt.pow(len as u32);
